@@ -410,7 +410,6 @@ func gatedCleanupPhase(t *testing.T) func(rep *Report, dir string) {
 			}
 		}
 
-		rep.CoqFiles = append(rep.CoqFiles, f.finish(t, dir))
-		rep.CaseFiles = append(rep.CaseFiles, writeJSONL(t, dir, "C07_cleanup_cases.jsonl", jl))
+		f.finishSharded(t, dir, rep, jl, 400)
 	}
 }
